@@ -133,7 +133,8 @@ func ZZVerifC05Tamper() {
 	c, _ := zzCipher(nd.Choose("cipher", 2))
 	secret := nd.BytesUpTo("secret", 1)
 	salt := nd.BytesUpTo("salt", 1)
-	enc := zzEnc(base, secret, salt, false, c)
+	hostOnly := nd.Bool("hostonly") // same host binding on both sides
+	enc := zzEnc(base, secret, salt, hostOnly, c)
 	pt := nd.BytesUpTo("pt", nd.Param("P", 1))
 	zzWrite(enc, "f", pt, nd.Choose("wstream", 2) == 1)
 	raw, err := base.ReadFile("f")
@@ -162,12 +163,12 @@ func ZZVerifC05Tamper() {
 	case 3: // read with another secret (same salt)
 		s2 := nd.BytesUpTo("secret2", 2)
 		nd.Assume(!bytes.Equal(s2, secret))
-		reader = zzEnc(base, s2, salt, false, c)
+		reader = zzEnc(base, s2, salt, hostOnly, c)
 		label = "C05/other-secret"
 	case 4: // read with another salt (same secret)
 		s2 := nd.BytesUpTo("salt2", 2)
 		nd.Assume(!bytes.Equal(s2, salt))
-		reader = zzEnc(base, secret, s2, false, c)
+		reader = zzEnc(base, secret, s2, hostOnly, c)
 		label = "C05/other-salt"
 	}
 	_, ok := zzRead(reader, "f", rstream)
